@@ -288,6 +288,7 @@ SELFTEST = [
     ("funsor/tensor.py", "def align_tensor(new_inputs, x, expand=False):", "    x.data[0] = 0\n"),
     ("funsor/terms.py", "    def eager_subs(self, subs):\n        assert len(subs) == 1 and subs[0][0] == self.name\n        value = subs[0][1]", "        self.inputs[self.name] = None\n"),
     ("funsor/cnf.py", "def _eager_contract_tensors(reduced_vars, terms, backend):", "    terms[0].data.fill(0)\n"),
+    ("funsor/tensor.py", "def align_tensor(new_inputs, x, expand=False):", "    np.nan_to_num(x.data, copy=False)\n"),
 ]
 
 
